@@ -141,7 +141,30 @@ def proxyJudge (f : List String) (out : String) : String :=
     | none => "bad:unparsable:" ++ out
   | _, _ => "bad:unparsable:" ++ out
 
+/-- c17.wire: only the delivered bytes and the first error are observable (net/http chooses the
+chunking); by C17_error_iff_over they do not depend on it, so the model drains an unchunked body. -/
+def wireCase : List String → Option (Bool × List (Bytes × Nat) × Bytes × Bytes × Nat)
+  | [cs, tb, p, d, _fr, buf] => do
+    pure (← parseBool cs, ← parseTable tb, ← Driver.unhex p, ← Driver.unhex d, ← buf.toNat?)
+  | _ => none
+
+def wireModel (f : List String) : String :=
+  match wireCase f with
+  | none => "bad-case"
+  | some (cs, raw, p, d, buf) =>
+    let t := serveBody cs (buildTable raw) p (wireBody d) (List.replicate (d.length + 8) buf)
+    Driver.hex (delivered t) ++ "\t" ++ showErr (firstErr t)
+
+def wireJudge (f : List String) (out : String) : String :=
+  match wireCase f, out.splitOn "\t" with
+  | some (cs, raw, p, d, _), [h, e] =>
+    match Driver.unhex h, (if e = "-" then some none else (parseErr e).map some) with
+    | some got, some err => handlerVerdict cs raw p d .eof [(got, err)]
+    | _, _ => "bad:unparsable:" ++ out
+  | _, _ => "bad:unparsable:" ++ out
+
 def streams : List Driver.Stream := [
+  { name := "c17.wire", model := wireModel, judge := wireJudge },
   { name := "c17.reader", model := readerModel, judge := readerJudge },
   { name := "c17.scope", model := readerModel, judge := readerJudge },
   { name := "c17.match", model := matchModel, judge := fun _ _ => "ok" },
